@@ -564,6 +564,8 @@ func (s *Scanner) scanStatement(stmt ast.Statement, result *ScanResult) {
 		s.scanUpdateStatement(st, result)
 	case *ast.DeleteStatement:
 		s.scanDeleteStatement(st, result)
+	case *ast.MergeStatement:
+		s.scanMergeStatement(st, result)
 	case *ast.SetOperation:
 		s.scanSetOperation(st, result)
 		return // its operands are statements and have just been scanned
@@ -587,6 +589,8 @@ func isScannableStatement(n ast.Node) (ast.Statement, bool) {
 	case *ast.UpdateStatement:
 		return st, st != nil
 	case *ast.DeleteStatement:
+		return st, st != nil
+	case *ast.MergeStatement:
 		return st, st != nil
 	case *ast.SetOperation:
 		return st, st != nil
@@ -665,6 +669,31 @@ func (s *Scanner) scanDeleteStatement(stmt *ast.DeleteStatement, result *ScanRes
 	// Check WHERE clause
 	if stmt.Where != nil {
 		s.scanExpression(stmt.Where, result, "WHERE clause")
+	}
+}
+
+// scanMergeStatement analyzes MERGE for injection patterns: the ON condition,
+// the extra condition of each WHEN clause, and the values it sets or inserts.
+func (s *Scanner) scanMergeStatement(stmt *ast.MergeStatement, result *ScanResult) {
+	if stmt.OnCondition != nil {
+		s.scanExpression(stmt.OnCondition, result, "MERGE ON condition")
+	}
+	for _, when := range stmt.WhenClauses {
+		if when == nil {
+			continue
+		}
+		if when.Condition != nil {
+			s.scanExpression(when.Condition, result, "MERGE WHEN condition")
+		}
+		if when.Action == nil {
+			continue
+		}
+		for _, set := range when.Action.SetClauses {
+			s.scanExpression(set.Value, result, "SET value")
+		}
+		for _, val := range when.Action.Values {
+			s.scanExpression(val, result, "VALUES")
+		}
 	}
 }
 
